@@ -92,7 +92,15 @@ func Corrupt(t *T, s *model.Schema, ty model.TypeRef, v *model.Val) (*model.Val,
 				option{"non_numeric_for_int", func() { p.set(model.Obj(model.F("a", model.Int(1)))) }},
 				option{"int_out_of_32_bits", func() { p.set(model.Int(2147483648)) }},
 				option{"int_out_of_32_bits", func() { p.set(model.Int(-2147483649)) }},
-				option{"int_out_of_32_bits", func() { p.set(model.Float(3e9)) }})
+				option{"int_out_of_32_bits", func() { p.set(model.Float(3e9)) }},
+				option{"int_out_of_32_bits", func() { p.set(model.Float(-3e9)) }},
+				option{"int_out_of_32_bits", func() { p.set(model.Int(1 << 40)) }},
+				option{"int_out_of_32_bits", func() { p.set(model.Int(-(1 << 40))) }},
+				// numeric text: whether the port reads it as a number (then it is out of range) or
+				// as a non-number, the value cannot be coerced to Int
+				option{"int_out_of_32_bits", func() { p.set(model.Str("2147483648")) }},
+				option{"int_out_of_32_bits", func() { p.set(model.Str("-2147483649")) }},
+				option{"int_out_of_32_bits", func() { p.set(model.Str("9999999999")) }})
 		case nt.Name == "Float":
 			opts = append(opts,
 				option{"non_numeric_for_float", func() { p.set(model.Str("abc")) }},
